@@ -13,9 +13,9 @@ SANITIZER_IS_VIOLATION = True
 MAX_TRAILER, MAX_RTCP_TRAILER = 144, 148
 
 
-def scripts(rng, tier):
+def scripts(rng, tier, n=None):
     out = []
-    n = 16 if tier == "quick" else 200
+    n = n or (16 if tier == "quick" else 200)
     for k in range(n):
         ssrc = rng.randrange(2, 1 << 32)
         p = rand_policy(rng, ssrc=ssrc, valid=True)
@@ -119,7 +119,8 @@ def monitor(script, c):
                 if st == 0 and cap < want:
                     hits.append({"what": "unprotect succeeded although *out_len was smaller than the packet produced", "signature": "small-buffer-accepted-" + kind,
                                  "detail": f"line {i-1}"}); return hits
-                if cap < want and st not in (0x1c, 9, 10) :
+                # 0x1d: the documented refusal of cryptex with CSRCs under AES-GCM out of place, decided before the capacity test
+                if cap < want and st not in (0x1c, 9, 10, 0x1d):
                     hits.append({"what": "too-small output buffer not reported as buffer_small", "signature": "small-buffer-status-" + kind,
                                  "detail": f"line {i-1}: status {st}"}); return hits
     return hits
@@ -142,4 +143,5 @@ def families(tier, seed):
     # functions compute: no byte may land at or beyond the capacity whatever the status
     return [Family("capacities", scripts(rng, tier), monitor=monitor),
             Family("forged-lengths-small-capacity", C10.forged_scripts(rng, tier), monitor=guard_monitor),
-            Family("malformed-small-capacity", C10.malformed_scripts(rng, tier)[: (12 if tier == "quick" else 150)], monitor=guard_monitor)]
+            Family("malformed-small-capacity", C10.malformed_scripts(rng, tier)[: (12 if tier == "quick" else 150)], monitor=guard_monitor),
+            Family("gcm-capacities", with_aead(scripts, random.Random(seed * 1000 + 111), tier, n=(8 if tier == "quick" else 120)), monitor=monitor, config="openssl")]
